@@ -397,7 +397,7 @@ def rt_strategy():
                           fields_strategy("json"), st.sampled_from(["profile", "profile", "dest_ext", "dest_noext", "profile_file"]),
                           _profile, st.one_of(st.none(), fields_strategy("json")))
     kv_case = st.builds(lambda f, how, p, f2: {"sub": "rt", "fmt": "keyval", "how": how, "fields": f, "profile": p, "fields2": f2},
-                        fields_strategy("keyval"), st.sampled_from(["dest_ext", "dest_noext", "profile_file"]), _profile,
+                        fields_strategy("keyval"), st.sampled_from(["profile", "dest_ext", "dest_noext", "profile_file"]), _profile,
                         st.one_of(st.none(), fields_strategy("json")))
     return st.one_of(json_case, kv_case)
 
@@ -419,7 +419,7 @@ def _enum_basic():
                 chat_dns_domain="fb", id="00" * 20, expid="ab" * 16, edge_routing_info="0802100118", server_static_public="33" * 32)
     for fields in ({}, base, full):
         for fmt, hows in (("json", ["profile", "dest_ext", "dest_noext", "profile_file"]),
-                          ("keyval", ["dest_ext", "dest_noext", "profile_file"])):
+                          ("keyval", ["profile", "dest_ext", "dest_noext", "profile_file"])):
             for how in hows:
                 yield {"sub": "rt", "fmt": fmt, "how": how, "fields": fields, "profile": "acct1"}
     yield {"sub": "crash", "old": base, "new": full, "profile": "acct1"}
